@@ -300,6 +300,11 @@ fn wl_c08(seed: u64, tier: &str) -> Vec<Vec<Value>> {
                 let b = r.bytes(*len);
                 ops.push(json!({"op": "repr", "f": f.name, "fn": "read_be", "bytes": bytes_to_j(&b)}));
                 ops.push(json!({"op": "repr", "f": f.name, "fn": "read_le", "bytes": bytes_to_j(&b)}));
+                // the same bytes from readers that deliver them in pieces
+                for chunk in [1u64, 7, 8, 13, 8 * f.nw as u64 - 1].iter() {
+                    ops.push(json!({"op": "repr", "f": f.name, "fn": "read_be", "bytes": bytes_to_j(&b), "reader": chunk, "cls": "piecewise-reader"}));
+                    ops.push(json!({"op": "repr", "f": f.name, "fn": "read_le", "bytes": bytes_to_j(&b), "reader": chunk, "cls": "piecewise-reader"}));
+                }
             }
         }
         for x in [0u64, 1, 2, 0xffff, 0x10000, u64::MAX, 1u64 << 63].iter() {
@@ -583,6 +588,43 @@ fn wl_c09(seed: u64, tier: &str) -> Vec<Vec<Value>> {
                 }
                 if ops.len() >= 60 {
                     sessions.push(std::mem::replace(&mut ops, vec![]));
+                }
+            }
+            sessions.push(std::mem::replace(&mut ops, vec![]));
+        }
+        // adjacency on one thread: elements sharing their first half, its negative, the norm of the
+        // previous operand ... inverted / squared back to back (whatever a routine remembers of the
+        // previous call must not leak into the next)
+        if *fname == "Fq12" || *fname == "Fq6" {
+            use ff::Field;
+            use pairing::bls12_381::{Fq12, Fq6};
+            let z = zero_w(&fq);
+            let z2 = f2(&z, &z);
+            let z6 = json!([z2, z2, z2]);
+            let one2 = f2(&w_add_small(&z, 1), &z);
+            for _ in 0..(if thorough { 6 } else { 2 }) {
+                let seq: Vec<Value> = if *fname == "Fq12" {
+                    let a = rand_f6(&mut r, &fq);
+                    let na = { let mut t = Fq6::from_j(&a); t.negate(); t.to_j() };
+                    let one6 = json!([one2, z2, z2]);
+                    let m = Fq12::from_j(&rand_f12(&mut r, &fq));
+                    let mut u = m;
+                    u.conjugate();
+                    u.mul_assign(&m.inverse().unwrap());
+                    vec![json!([one6, z6]), json!([one6, rand_f6(&mut r, &fq)]), json!([a, z6]), json!([a, rand_f6(&mut r, &fq)]),
+                         json!([na, rand_f6(&mut r, &fq)]), json!([a, z6]), u.to_j(), json!([one6, [z2, one2, z2]]),
+                         json!([one6, z6]), json!([[z2, z2, one2], rand_f6(&mut r, &fq)])]
+                } else {
+                    let a = rand_f2(&mut r, &fq);
+                    vec![json!([one2, z2, z2]), json!([one2, rand_f2(&mut r, &fq), z2]), json!([a, z2, z2]),
+                         json!([a, rand_f2(&mut r, &fq), rand_f2(&mut r, &fq)]), json!([a, z2, z2]), json!([one2, z2, rand_f2(&mut r, &fq)])]
+                };
+                for x in seq.iter() {
+                    ops.push(json!({"op": "ext", "f": fname, "fn": "inv", "a": x, "cls": "adjacent-related"}));
+                }
+                for x in seq.iter() {
+                    ops.push(json!({"op": "ext", "f": fname, "fn": "sqr", "a": x, "cls": "adjacent-related"}));
+                    ops.push(json!({"op": "ext", "f": fname, "fn": "mul", "a": x, "b": seq[0], "cls": "adjacent-related"}));
                 }
             }
             sessions.push(std::mem::replace(&mut ops, vec![]));
@@ -895,7 +937,7 @@ where
         let f = *r.pick(&[
             "add", "add", "add", "sub", "sub", "add_mixed", "add_mixed", "sub_mixed", "double", "double",
             "negate", "negate_aff", "into_affine", "into_projective", "eq", "eq_aff", "is_zero",
-            "is_zero_aff", "is_normalized", "copy", "copy", "rescale", "rescale", "batch", "reload", "sumdiff", "companion",
+            "is_zero_aff", "is_normalized", "copy", "copy", "rescale", "rescale", "batch", "reload", "sumdiff", "companion", "oppxy",
         ]);
         match f {
             "rescale" if r.below(3) == 0 => {
@@ -944,6 +986,36 @@ where
                         ops.push(json!({"op": "cm", "g": g, "fn": f2, "d": d, "s": s, "cls": "companion"}));
                     }
                 }
+            }
+            "oppxy" => {
+                // opposite points whose representatives share X and Y (Z negated): -P rescaled by -1, the
+                // two orders of one sum, the doubles of P and -P
+                let t = (d + 1 + r.below(nreg - 1)) % nreg;
+                let m1 = if g == "G1" { nat(&w_sub_small(&fq.p, 1)) } else { f2(&w_sub_small(&fq.p, 1), &vec![0u64; 6]) };
+                match r.below(3) {
+                    0 => {
+                        ops.push(json!({"op": "cm", "g": g, "fn": "copy", "d": t, "s": d, "cls": "opposite-same-XY"}));
+                        ops.push(json!({"op": "cm", "g": g, "fn": "negate", "d": t, "cls": "opposite-same-XY"}));
+                        ops.push(json!({"op": "cm", "g": g, "fn": "rescale", "d": t, "lam": m1, "cls": "opposite-same-XY"}));
+                    }
+                    1 => {
+                        ops.push(json!({"op": "cm", "g": g, "fn": "copy", "d": t, "s": d, "cls": "opposite-same-XY"}));
+                        ops.push(json!({"op": "cm", "g": g, "fn": "negate", "d": t, "cls": "opposite-same-XY"}));
+                        ops.push(json!({"op": "cm", "g": g, "fn": "double", "d": t, "cls": "opposite-same-XY"}));
+                        ops.push(json!({"op": "cm", "g": g, "fn": "double", "d": d, "cls": "opposite-same-XY"}));
+                    }
+                    _ => {
+                        if t != s && d != s {
+                            // d <- d + s, t <- -(s + d)
+                            ops.push(json!({"op": "cm", "g": g, "fn": "copy", "d": t, "s": s, "cls": "opposite-same-XY"}));
+                            ops.push(json!({"op": "cm", "g": g, "fn": "add", "d": t, "s": d, "cls": "opposite-same-XY"}));
+                            ops.push(json!({"op": "cm", "g": g, "fn": "add", "d": d, "s": s, "cls": "opposite-same-XY"}));
+                            ops.push(json!({"op": "cm", "g": g, "fn": "negate", "d": t, "cls": "opposite-same-XY"}));
+                        }
+                    }
+                }
+                let f2x = *r.pick(&["add", "add", "sub", "eq"]);
+                ops.push(json!({"op": "cm", "g": g, "fn": f2x, "d": d, "s": t, "cls": "opposite-same-XY"}));
             }
             "sumdiff" => {
                 // P+Q and P-Q computed from the same pair (they share their Z), then combined
@@ -1196,7 +1268,7 @@ where
     // context histories: one reused context per session
     let nh = if thorough { 40 } else { if is1 { 8 } else { 3 } };
     let lens = [3usize, 12, 70, 130, 200, 255];
-    let nums: Vec<W> = vec![vec![1], vec![2], vec![10], vec![100], vec![5000], vec![200_000]];
+    let nums: Vec<W> = vec![vec![1], vec![2], vec![10], vec![100], vec![5000], vec![200_000], vec![0], vec![0]];
     for h in 0..nh {
         let mut ops = vec![json!({"op": "wn", "g": g, "fn": "new"})];
         let bases = [&pool[0].0, &pool[3 + h % 3].0, &pool[6 + h % 2].0];
@@ -1306,6 +1378,18 @@ where
         ("same-ordinate", vec![aj(&gen), aj(&gen_e), aj(&gen_e2)],
             vec![rand_scalar_bits(r, 255), rand_scalar_bits(r, 255), LAMBDA.to_vec()]),
     ];
+    // scalars of the catalogue (below 2^255): zero words inside, word boundaries, r-1, lambda, ...
+    let mut shapes = shapes;
+    {
+        let cat: Vec<(W, &'static str)> = scalar_catalogue(r, false).into_iter().filter(|(k, _)| k[3] >> 63 == 0).collect();
+        for (ci, chunk) in cat.chunks(3).enumerate() {
+            if ci % 3 != (seed % 3) as usize && !thorough {
+                continue;
+            }
+            let pts: Vec<Value> = (0..chunk.len()).map(|i| aj(&sub[(ci + i) % 4])).collect();
+            shapes.push(("catalogue-scalars", pts, chunk.iter().map(|(k, _)| k.clone()).collect()));
+        }
+    }
     for (si, (name, pts, ks)) in shapes.iter().enumerate() {
         let kj: Vec<Value> = ks.iter().map(|k| nat(k)).collect();
         push(&mut ops, sessions, json!({"op": "msm", "g": g, "fn": "default", "points": pts, "scalars": kj, "cls": name}));
@@ -1397,6 +1481,13 @@ where
         let ks: Vec<Value> = (0..n).map(|_| nat(&rand_scalar_bits(r, 255))).collect();
         sessions.push(vec![json!({"op": "msml", "g": g, "fn": "precomp", "base": aj(&sub[1]),
                                   "a": a, "scalars": ks, "cls": "table-precomp"})]);
+    }
+    // the table-driven variant on long inputs (the table is one big slice: 256 entries per point)
+    for n in (if thorough { vec![1023usize, 1024, 1025, 1100, 2049] } else if is1 { vec![1024, 1025, 1100] } else { vec![] }).iter() {
+        let a: Vec<i64> = (0..*n).map(|i| ((i * 7 + i / 13) % 17) as i64 - 8).collect();
+        let ks: Vec<Value> = (0..*n).map(|i| nat(&rand_scalar_bits(r, if i % 7 == 0 { 255 } else { 64 }))).collect();
+        sessions.push(vec![json!({"op": "msml", "g": g, "fn": "precomp", "base": aj(&sub[2]),
+                                  "a": a, "scalars": ks, "cls": format!("table-precomp-n{}", n)})]);
     }
     // the window heuristic itself
     let mut ops = vec![];
